@@ -96,10 +96,11 @@ def run(tier):
             rep.extra.setdefault("generators_converted_to_pq", []).append(r_.get("n_converted", 0))
         else:
             if r_.get("raised"):
-                ev = [dict(e="stock", raised=True, converged=False, resid_ok=True, setpoints_ok=True, nan=False, indep_ok=True)]
+                ev = [dict(e="stock", raised=True, converged=False, resid_ok=True, setpoints_ok=True, nan=False, indep_ok=True, source_ok=True)]
             else:
                 ev = [dict(e="stock", raised=False, converged=r_["converged"], resid_ok=r_.get("resid_ok", True),
-                           setpoints_ok=r_.get("setpoints_ok", True), nan=r_.get("nan", False), indep_ok=r_.get("indep_ok", True))]
+                           setpoints_ok=r_.get("setpoints_ok", True), nan=r_.get("nan", False), indep_ok=r_.get("indep_ok", True),
+                           source_ok=r_.get("source_ok", True))]
                 if r_.get("indep") and r_["indep"][-1] == "undecided":
                     rep.note("%s: independent balance undecided (%s)" % (t["sid"], r_["indep"][1]))
             traces.append(dict(meta=dict(tid=len(traces) + 1, sid=t["sid"]), ev=ev, detail=r_))
